@@ -7,8 +7,8 @@
     values are exactly the wire values.  The full biconditional "accept iff
     every known key has the right CBOR type" is REFUTED for the faithful
     model and for the library (open finding K1): [C04_array_as_bytes_refuted]. *)
-From Coq Require Import ZArith.
-From PSA Require Import Base Lines Lifecycle Regex Claims ClaimsSpec ClaimsProofs Cbor Utf8 Tags Wire WireProofs Codec Gates SetterProofs CodecProofs EvidenceProofs DecodeProofs.
+From Coq Require Import ZArith Permutation.
+From PSA Require Import Base Lines Lifecycle Regex Claims ClaimsSpec ClaimsProofs Cbor Utf8 Tags Wire WireProofs Codec Gates SetterProofs CodecProofs EvidenceProofs DecodeProofs DecodePerm.
 From PSA.Spec Require Import SpecTables SpecTags.
 Open Scope N_scope.
 
@@ -61,3 +61,12 @@ Example C04_array_as_bytes_refuted :
   exists c, decode_and_validate spec_ccfg W (enc k1_token) = DOk c /\ c_impl c = Some (rep 32 x07) /\
             lenient_cbor spec_ccfg W (enc k1_token) = true.
 Proof. exact array_as_bytes_refuted. Qed.
+
+(** key order: two tokens whose claims maps hold the same pairs in a different order (integer keys
+    pairwise distinct) get the same verdict and the same claims-set *)
+Theorem C04_key_order_irrelevant : forall b b' kvs kvs',
+  parse_all b = Some (CMap kvs) -> parse_all b' = Some (CMap kvs') ->
+  Permutation kvs kvs' -> NoDup (int_keys kvs) ->
+  decode_cbor spec_ccfg W b = decode_cbor spec_ccfg W b'.
+Proof. exact decode_cbor_order_irrelevant. Qed.
+Print Assumptions C04_key_order_irrelevant.
